@@ -1,5 +1,6 @@
 import ScVerif.Base.Line
 import ScVerif.C17.Threads
+import ScVerif.C17.Adapters
 /-!
 Driver handler for C17.
 
@@ -143,6 +144,70 @@ def handleExec (api strat : String) (allowed : Int) (behs : List Beh) (order : L
     some (showTrace n (some out) tr inv)
   | _, _ => none
 
+/-! ## Group adapters: `group <trait> <rpc> <strategy> <allowed> <n> <members> <order> <parentCancel> <vals>`
+
+The members' functions are run by `Execute(strategy)` exactly as for `exec x`; the answer has the
+adapter's value in place of the result slice: `val=V err=E ret=… cancel=… seen=… inv=… left=…`.
+Get/Update: `V` = the reduced results (`-` when the call fails).  Pull: `vals[i]` is the value code
+member `i`'s stream delivers first; `V` = the merge of the values of the members started (`-` if
+none). -/
+
+def showRat (q : Rat) : String :=
+  if q.den = 1 then toString q.num else toString q.num ++ "/" ++ toString q.den
+
+def showOnOff : Nat → String
+  | 0 => "UNSPECIFIED"
+  | 1 => "ON"
+  | 2 => "OFF"
+  | k => "?" ++ toString k
+
+def runExecMany (a : Int) (behs : List Beh) (order : List Nat) (pc : Option Nat) : Option Many × Trace Unit × List Nat :=
+  let n := behs.length
+  let tr := runSerial (upTo n a) behs order pc
+  (tr.result, ⟨none, tr.ret, tr.cancel, tr.seen, tr.left⟩, List.range n)
+
+def runExecSingle (C : Consumer σ Single) (behs : List Beh) (order : List Nat) (pc : Option Nat) : Option Many × Trace Unit × List Nat :=
+  let n := behs.length
+  let tr := runSerial C behs order pc
+  (tr.result.map (singleResult n), ⟨none, tr.ret, tr.cancel, tr.seen, tr.left⟩, List.range n)
+
+/-- `Execute(strategy)` over gated members: the result, the trace and the members invoked. -/
+def runExecute (strat : String) (behs : List Beh) (order : List Nat) (pc : Option Nat) :
+    Option (Option Many × Trace Unit × List Nat) :=
+  let n := behs.length
+  match strat with
+  | "all" => some (runExecMany (allowedAll n) behs order pc)
+  | "most" => some (runExecMany (allowedMost n) behs order pc)
+  | "any" => some (runExecMany (allowedAny n) behs order pc)
+  | "fast" => some (runExecSingle fast behs order pc)
+  | "race" => some (runExecSingle race behs order pc)
+  | "one" =>
+    let (res, tr, inv) := runOne behs order pc
+    some (some (singleResult n res), ⟨none, tr.ret, tr.cancel, tr.seen, tr.left⟩, inv)
+  | _ => none
+
+def handleGroup (trait rpc strat : String) (behs : List Beh) (order : List Nat) (pc : Option Nat)
+    (vals : List Nat) : Option String := do
+  let n := behs.length
+  let (res, tr, inv) ← runExecute strat behs order pc
+  let out : Option String ← match trait, rpc with
+    | "onoff", "Pull" =>
+      some (res.map fun m => "val=" ++ ((onoffPull n vals inv).map showOnOff).getD "-" ++ " err=" ++ showErr m.err)
+    | "light", "Pull" =>
+      some (res.map fun m => "val=" ++ ((lightPull n vals inv).map showRat).getD "-" ++ " err=" ++ showErr m.err)
+    | "onoff", _ =>
+      some (res.map fun m => let (v, e) := onoffGet m; "val=" ++ (v.map showOnOff).getD "-" ++ " err=" ++ showErr e)
+    | "light", _ =>
+      some (res.map fun m => let (v, e) := lightGet m; "val=" ++ (v.map showRat).getD "-" ++ " err=" ++ showErr e)
+    | _, _ => none
+  -- PullX runs Execute under `context.WithCancel(server.Context())` with a deferred `cancelFunc()`:
+  -- whatever the strategy, the members' context is cancelled once the subscription has returned
+  let tr := if rpc = "Pull" then
+      { tr with cancel := tr.cancel.zipIdx.map fun (b, k) =>
+          b || (match tr.ret with | some r => decide (r ≤ k) | none => false) }
+    else tr
+  pure (showTrace n out tr inv)
+
 def isPerm (order : List Nat) (n : Nat) : Bool :=
   order.length == n && (List.range n).all fun i => order.contains i
 
@@ -158,6 +223,18 @@ def handle (toks : List String) : String :=
       if api ≠ "x" && api ≠ "d" then none
       if behs.length ≠ n || !isPerm order n then none
       handleExec api strat allowed behs order pc
+    r.getD "!bad-op"
+  | ["group", trait, rpc, strat, _allowed, n, behs, order, pc, vals] =>
+    let r : Option String := do
+      let n ← parseNat? n
+      let behs ← parseList? parseBeh? behs
+      let order ← parseList? parseNat? order
+      let pc ← if pc = "-" then some none else (parseNat? pc).map some
+      let vals ← parseList? parseNat? vals
+      if rpc ≠ "Get" && rpc ≠ "Update" && rpc ≠ "Pull" then none
+      if behs.length ≠ n || !isPerm order n then none
+      if rpc = "Pull" && vals.length ≠ n then none
+      handleGroup trait rpc strat behs order pc vals
     r.getD "!bad-op"
   | _ => "!bad-op"
 
